@@ -29,6 +29,9 @@ is keyed by identity:
              rows that appear later are "new:<row id>"
   texts0/1/2 column identity -> _grist_Tables_column.formula
   vals0/1/2  column identity -> the cells of the column (fetch_table by its current names), as tokens
+  vals1r     the same for a FRESH engine that loads the metadata and data columns of the document after
+             the step and calculates every formula from scratch (adapter.rebuild); vals0 comes from a
+             freshly calculated engine as well ({"?": [<exception class>]} if that engine cannot be made)
   dig0, dig1 digests of the whole document (every table, metadata included)
   cons1      Engine.assert_schema_consistent() holds after the step
   undo_exc   "" or the class name of the exception ApplyUndoActions raised
@@ -220,13 +223,31 @@ def step_action(inp, eng, tab_ident, col_ident):
   raise adapter.MachineryError("unknown rename path %r" % (path,))
 
 
+_BUILT = {}
+
+
+def fresh_document(sch):
+  """A fresh engine holding the document.  The document is built by user actions once per process;
+  every case then gets its own engine that LOADS what the built one reports (metadata and tables
+  through load_meta_tables / load_table, then Calculate - the way a stored document is opened)."""
+  key = json.dumps(sch, sort_keys=True)
+  if key not in _BUILT:
+    if len(_BUILT) > 8:
+      _BUILT.clear()
+    _BUILT[key] = build(sch)
+  base, tab_ident, col_ident = _BUILT[key]
+  eng, _reply = adapter.reopen(base)
+  return eng, tab_ident, col_ident
+
+
 def run_case(inp):
   o = {"fail": "", "exc": "", "undo_exc": "", "ret": "", "cons1": True, "dig0": 0, "dig1": 0}
   for k in ("names", "texts", "vals"):
     for n in "012":
       o[k + n] = {}
+  o["vals1r"] = {}
   try:
-    eng, tab_ident, col_ident = build(inp["sch"])
+    eng, tab_ident, col_ident = fresh_document(inp["sch"])
     setup, action = step_action(inp, eng, tab_ident, col_ident)
     for ua in setup:
       adapter.apply(eng, [ua])
@@ -247,8 +268,12 @@ def run_case(inp):
     o["fail"] = "after %s: %s" % (type(e).__name__, str(e)[:200])
     return o
   if reply is None:
-    o["names2"], o["texts2"], o["vals2"] = o["names1"], o["texts1"], o["vals1"]
+    o["names2"], o["texts2"], o["vals2"], o["vals1r"] = o["names1"], o["texts1"], o["vals1"], o["vals1"]
     return o
+  try:
+    _n, _t, o["vals1r"], _d = observe(adapter.rebuild(eng), tab_ident, col_ident)
+  except Exception as e:   # pylint: disable=broad-except
+    o["vals1r"] = {"?": [type(e).__name__]}
   try:
     adapter.apply(eng, [["ApplyUndoActions", reply["undo"]]])
   except Exception as e:   # pylint: disable=broad-except
